@@ -7,6 +7,7 @@ Output: "#case" lines are echoed; one model line per operation.
 import LA.Drive.Lnk
 import LA.Drive.ReadAhead
 import LA.Drive.ReadObs
+import LA.Drive.Tree
 open LA
 
 def engines : List (String × Engine) := [
@@ -15,7 +16,8 @@ def engines : List (String × Engine) := [
   ("part", LA.ReadObs.enginePart),
   ("cons", LA.ReadObs.engineCons),
   ("trunc", LA.ReadObs.engineTrunc),
-  ("rd", LA.ReadObs.engineRd)
+  ("rd", LA.ReadObs.engineRd),
+  ("tree", LA.Tree.engine)
 ]
 
 partial def loop (e : Engine) (h : IO.FS.Stream) (out : IO.FS.Stream) (s : e.σ) : IO Unit := do
